@@ -25,7 +25,7 @@ LEVEL_TEXT = ("Scenarios restricted to the v1 vocabulary (discrete/continuous re
               "be identical. Runs with the grid section omitted / optional sections omitted must equal the explicit ones.")
 LEVEL_NOTE = "The TOML text is produced by the harness's own writer and read by ladim through tomli; with diffusion > 0 the tracker's rng is re-seeded identically by the harness in every run so that outputs are comparable exactly."
 RULE = ("case = scenario spec; renderings yaml2, toml2, yaml1 (+ grid-omitted, sections-omitted variants). Non-trivial: several release times or continuous release and moving water; distinct by spec.")
-MANDATORY = ["wildcard_names_of_unequal_length", "v1_file_names_in_files_section", "v1_discrete_with_release_frequency", "configure_dicts_compared", "plugin_gridforce", "version_key_omitted", "yaml2_vs_toml2", "yaml2_vs_yaml1", "grid_omitted_pairs", "wildcard_forcing", "optional_sections_omitted_pairs", "continuous", "discrete", "subgrid", "diffusion_seeded",
+MANDATORY = ["yaml_anchor_and_alias", "steps_not_multiple_of_output_period", "wildcard_names_of_unequal_length", "v1_file_names_in_files_section", "v1_discrete_with_release_frequency", "configure_dicts_compared", "plugin_gridforce", "version_key_omitted", "yaml2_vs_toml2", "yaml2_vs_yaml1", "grid_omitted_pairs", "wildcard_forcing", "optional_sections_omitted_pairs", "continuous", "discrete", "subgrid", "diffusion_seeded",
              "particle_variable_column", "values_compared"]
 ASSUMPTIONS = ["only what the v1 vocabulary can express"]
 MIN_CASES_PER_PROCESS = 4  # several runs share one interpreter: state leaking between runs (module caches, shared defaults) becomes observable
@@ -83,7 +83,7 @@ def spec_for(case: dict[str, Any]) -> dict[str, Any]:
                 diffusion=float(rng.choice([0.0, 0.0, 25.0])), advection=str(rng.choice(["EF", "RK2", "RK4"])),
                 nfiles=nfiles, wildcard=bool(nfiles > 1 or rng.random() < 0.5), reference="2019-12-31T00:00:00" if rng.random() < 0.5 else None,
                 cohort=bool(rng.random() < 0.6), ibm=bool(rng.random() < 0.5), outper_spelling=int(rng.integers(2)), seed=int(rng.integers(10**6)),
-                version_key=bool(rng.random() < 0.5), plugin_gridforce=bool(case["idx"] % 4 == 1), odd_names=bool(nfiles > 1 and case["idx"] % 3 != 2))
+                outper_mult=2 if (case["idx"] // 2) % 2 else 1, version_key=bool(rng.random() < 0.5), plugin_gridforce=bool(case["idx"] % 4 == 1), odd_names=bool(nfiles > 1 and case["idx"] % 3 != 2))
 
 
 def make_files(sp: dict[str, Any], wd: Path):
@@ -131,12 +131,17 @@ def renderings(sp: dict[str, Any], wd: Path, w, rls: Path, names: list[str]) -> 
     dt, ns = sp["dt"], sp["ns"]
     start, stop = C.T0, str(tadd(C.T0, ns * dt))
     forcing_file = w["pattern"] if sp["wildcard"] else str(w["files"][0])
-    outper_v = [dt, "s"] if sp["outper_spelling"] == 0 else dt
+    opdt = dt * sp.get("outper_mult", 1)
+    outper_v = [opdt, "s"] if sp["outper_spelling"] == 0 else opdt
     ivars = ["pid", "X", "Y", "Z"] + (["age"] if sp["ibm"] else [])
     pvars = ["release_time"] + (["cohort"] if sp["cohort"] else [])
     attrs = dict(pid=dict(long_name="particle identifier"), X=dict(long_name="X"), Y=dict(long_name="Y"), Z=dict(long_name="depth", units="m"),
                  age=dict(long_name="age"), release_time=dict(long_name="release time", units="seconds since reference_time"), cohort=dict(long_name="cohort"))
     nct = dict(pid="i4", X="f8", Y="f8", Z="f8", age="f8", release_time="f8", cohort="f8")
+    shared = bool(sp["seed"] % 2)
+    if shared:
+        # X and Y described by one and the same mapping object: the YAML files then carry an anchor and an alias (&id001 / *id001)
+        attrs["X"] = attrs["Y"] = dict(long_name="grid coordinate")
 
     def out(name):
         return str(wd / f"out_{name}.nc")
@@ -189,6 +194,8 @@ def renderings(sp: dict[str, Any], wd: Path, w, rls: Path, names: list[str]) -> 
         v1["ibm"] = dict(ibm_module=C.REC_IBM, variables=["age"], age=True, log=False)
     for k in ivars + pvars:
         v1["output_variables"][k] = dict(ncformat=nct[k], **attrs[k])
+    if shared:
+        v1["output_variables"]["Y"] = v1["output_variables"]["X"]
     if sp["seed"] % 3 == 0:
         # legacy layout: input_file and gridfile live in the `files` section (not in gridforce)
         v1["files"]["input_file"] = v1["gridforce"].pop("input_file")
@@ -216,7 +223,8 @@ def norm_conf(c: dict[str, Any]) -> dict[str, Any]:
         instance_variables=sorted((c["state"].get("instance_variables") or {}).items()), particle_variables=sorted((c["state"].get("particle_variables") or {}).items()),
         ibm_module=(c.get("ibm") or {}).get("module"), output_period=int(normalize_period(out["output_period"]) / one),
         out_instance=sorted((k, v["encoding"]["datatype"]) for k, v in out["instance_variables"].items()),
-        out_particle=sorted((k, v["encoding"]["datatype"]) for k, v in (out.get("particle_variables") or {}).items()))
+        out_particle=sorted((k, v["encoding"]["datatype"]) for k, v in (out.get("particle_variables") or {}).items()),
+        skip_initial=bool(out.get("skip_initial", False)), warm_start_file=(c.get("warm_start") or {}).get("filename"))
 
 
 def read_all(path: Path):
@@ -264,6 +272,8 @@ def run_case(case: dict[str, Any], wd: Path) -> dict[str, Any]:
     sit["continuous" if sp["cont"] else "discrete"] = 1
     sit["subgrid"] = int(sp["subgrid"] is not None)
     sit["wildcard_forcing"] = int(sp["wildcard"])
+    sit["yaml_anchor_and_alias"] = int(sp["seed"] % 2)
+    sit["steps_not_multiple_of_output_period"] = int(sp["ns"] % sp.get("outper_mult", 1) != 0)
     sit["wildcard_names_of_unequal_length"] = int(sp["wildcard"] and sp["odd_names"])
     sit["particle_variable_column"] = int(sp["cohort"])
     sit["diffusion_seeded"] = int(sp["diffusion"] > 0)
